@@ -1,5 +1,6 @@
 """C18  cdns-merge preserves every block and record; cdns-itemcount counts are true."""
 import json
+import re
 import os
 import random
 import shutil
@@ -167,6 +168,34 @@ def run_counts(tools, work, idx, data, trace):
                                 "status": r.returncode, "lines": lines}) + "\n")
 
 
+HEAD_RE = re.compile(r"^(Query/Response|Address event count|Malformed message) (\d+):$")
+KIND = {"Query/Response": "q", "Address event count": "a", "Malformed message": "m"}
+
+
+def run_tools(tools, work, idx, data, trace, rng):
+    """cdns-items / cdns-blocks on a real file (beyond the listed properties; spec/Tools.tla): which items / blocks are shown and
+    under which number.  Mismatches are model drift, not violations."""
+    p = work / f"t{idx}.cdns"
+    p.write_bytes(data)
+    combos = [("all", None)] + [(t, None) for t in "qam"]
+    for _ in range(4):
+        lo = rng.choice([0, 0, 1, 2, 3, 5, 8, 13, 30])
+        hi = lo + rng.choice([0, 0, 1, 2, 4, 9, 40, 100])
+        combos.append((rng.choice(["all", "q", "a", "m"]), (lo, hi)))
+    for t, rg in combos:
+        args = ([] if t == "all" else ["-" + t]) + (["-n", f"{rg[0]}-{rg[1]}" if rg[0] != rg[1] or rng.random() < 0.5 else str(rg[0])] if rg else [])
+        r = subprocess.run(["timeout", "60", str(tools / "cdns-items")] + args + [str(p)], capture_output=True, text=True, errors="replace")
+        heads = [[KIND[m.group(1)], int(m.group(2))] for m in (HEAD_RE.match(x) for x in r.stdout.split("\n")) if m]
+        trace.write(json.dumps({"e": "T", "tool": "items", "bytes": segs(data), "heads": heads, "short": "Not enough items" in r.stderr,
+                                "opt": {"type": t, "ranged": rg is not None, "lo": rg[0] if rg else 0, "hi": rg[1] if rg else 0}}) + "\n")
+    for n in (None, 0, rng.randrange(0, 6)):
+        r = subprocess.run(["timeout", "60", str(tools / "cdns-blocks")] + (["-n", str(n)] if n is not None else []) + [str(p)],
+                           capture_output=True, text=True, errors="replace")
+        heads = [int(m.group(1)) for m in (re.match(r"^Block (\d+): $", x) for x in r.stdout.split("\n")) if m]
+        trace.write(json.dumps({"e": "T", "tool": "blocks", "bytes": segs(data), "heads": heads,
+                                "opt": {"one": n is not None, "n": n or 0}}) + "\n")
+
+
 def run(tier):
     chk = Check("C18", tier, "model_checking")
     chk.rule = ("model: all tuples of 1..3 inputs from {ok with 1-2 parameter sets, version mismatch, unopenable, truncated, "
@@ -183,6 +212,12 @@ def run(tier):
         res, verdict = vlib.model_check("MCMerge", cfg, workers=4, timeout=600)
         chk.add_model("MCMerge(all tuples <= 3 of 6 input kinds)" if bug == "none"
                       else "MCMerge[MBug=pass2_all] (pinned code; self-test, must fail)", res, verdict, expect=expect)
+    for tb, inv, expect in (("", ["HeadsAgree", "ShortAgree", "BlocksAgree"], "ok"), ("short_remark_exact", ["ShortAgree"], "violated"),
+                            ("unranged_counter", ["ShortAgree"], "violated")):
+        cfg = vlib.make_cfg(work0 / f"MCTools_{tb or 'abs'}.cfg", spec="Spec", constants={"MaxB": 2, "MaxI": 1, "TBug": f'"{tb}"'}, invariants=inv)
+        res, verdict = vlib.model_check("MCTools", cfg, workers=4, timeout=600)
+        chk.add_model("MCTools (cdns-items / cdns-blocks selection; beyond the listed properties)" if tb == ""
+                      else f"MCTools[TBug={tb}] ({'pinned remark rule; ' if tb == 'short_remark_exact' else ''}self-test, must fail)", res, verdict, expect=expect)
     shutil.rmtree(work0, ignore_errors=True)
 
     rng = random.Random(chk.seed * 29 + 18)
@@ -226,6 +261,9 @@ def run(tier):
         idx += 1
     for i, f in enumerate(files[:6 if tier == "quick" else 30]):
         run_counts(tools, work, 10000 + i, f.read_bytes(), handles[i % nsh])
+    # beyond the listed properties: which items / blocks cdns-items and cdns-blocks show (Tools.tla; mismatches are drift notes)
+    for i, f in enumerate(files[:8 if tier == "quick" else 40]):
+        run_tools(tools, work, 20000 + i, f.read_bytes(), handles[(i + 5) % nsh], rng)
     for h in handles:
         h.write(json.dumps({"e": "END"}) + "\n")
         h.close()
